@@ -488,19 +488,22 @@ def rule_r5(ctx, an: Anchors, rule: str = "C03.R5") -> None:
                 if later_reads and cfg.all_paths_pass(nid, [s.id for s in stores], later_reads) and nid not in later_reads:
                     continue
                 cps.append((n, reason))
-        if cps:
-            n, reason = cps[0]
+        seen_nodes = set()
+        for n, reason in cps:
+            if n.id in seen_nodes:
+                continue
+            seen_nodes.add(n.id)
             node = n.ast if isinstance(n.ast, ast.AST) else f.node
-            stmt = node
-            # report the awaited expression statement
             rep.violate(
                 rule,
                 f,
-                stmt,
+                node,
                 f"checkpoint ({reason}) between the miss on the resource table and the store of the generated resource: "
                 "a concurrent lookup can pass the same miss, call the factory again and replace/duplicate the value",
                 path=cfg.describe_path([reads[0].id, n.id, stores[0].id]),
             )
+        if cps:
+            pass
         else:
             rep.hold(rule, f, f.node, f"no checkpoint on any path from the table miss to the generation store ({len(between)} nodes inspected)")
     rep.floor(rule, count, 2)
